@@ -346,6 +346,16 @@ pub fn run(ctx: &mut Ctx) {
             if s != base_s {
                 ctx.rep.violation("oracle", "streaming/large-file-differs", &format!("StreamingDecoder results differ between two deliveries of the same bytes: `{}` vs `{}`", trunc(&base_s), trunc(&s)), case_json(&f.bytes[..f.bytes.len().min(400_000)], &[], &cuts[..cuts.len().min(2000)], &DEFAULT_OPTS, "streaming"));
             }
+            // every few runs: one cut exactly where a chunk body fills the 32 KiB buffer (+-1)
+            if k % 4 == 0 {
+                let fo = field_offsets(&f.bytes);
+                if let Some(&o) = fo.get(4 + 4 * (k / 4 % 2)) {
+                    let c = o + 32768 + (k / 8) % 3 - 1;
+                    if c < f.bytes.len() {
+                        cuts = vec![c];
+                    }
+                }
+            }
             // Reader under small limits: whether a chunk fits the budget must not depend on the delivery
             for limit in [40_000usize, 100_000] {
                 let a = run_reader_limited(&f.bytes, &[], limit);
